@@ -92,6 +92,8 @@ func (*DataProcessor).processAggregationResults
   modifies *
   observe having := applyHavingFilter
   observe distinct := applyDistinct
+  count sorted := applyOrderBy
+  atreturn every-batch-goes-through-order-by-whatever-the-limit: $sorted == 1
   before applyHavingFilter having-after-distinct: dp.stream.config.Distinct ==> finalResults == $distinct
   before applyOrderBy order-by-sees-having-output: dp.stream.config.Having != "" ==> finalResults == $having
   before applyOrderBy order-by-sees-all-rows: dp.stream.config.Having == "" && !dp.stream.config.Distinct ==> len(finalResults) == len(results)
@@ -205,7 +207,7 @@ func (*Stream).Emit
   count counted := Inc
   count handed := ProcessData
   before ProcessData the-strategy-gets-this-row: $arg1 == data
-  ensures counted-once-and-handed-to-the-strategy-once: $counted == 1 && $handed == 1
+  atreturn counted-once-and-handed-to-the-strategy-once: $counted == 1 && $handed == 1
 
 func (*Stream).safeSendToDataChan
   props C19
@@ -322,6 +324,20 @@ extern (*Stream).executeFunction
 extern (*Stream).processSingleFieldFallback
   props C05 C04 C06 C07 C16 C20
   modifies mapof(result)
+
+// argument splitting of a function call text: commas separate arguments only outside quotes and outside nested parentheses,
+// and parentheses inside a quoted literal are text. qst2 / pdepth: quote state and parenthesis depth after n bytes.
+recfunc qst2((s Str) (n Int)) Int := (ite (<= n 0) 0 (let ((q (@qst2 s (- n 1))) (c (gs.at s (- n 1)))) (ite (not (= q 0)) (ite (= c q) 0 q) (ite (or (= c 39) (= c 34)) c 0))))
+recfunc pdepth((s Str) (n Int)) Int := (ite (<= n 0) 0 (let ((d (@pdepth s (- n 1))) (q (@qst2 s (- n 1))) (c (gs.at s (- n 1)))) (ite (not (= q 0)) d (ite (= c 40) (+ d 1) (ite (= c 41) (- d 1) d)))))
+
+func (*Stream).smartSplitArgs
+  props C06 C05
+  option safety
+  modifies heap(strings.Builder)
+  loop 1 invariant 0 <= i && i <= len(argsStr) && (inQuotes <==> quoteChar != 0) && (quoteChar == 0 || quoteChar == 39 || quoteChar == 34)
+  loop 1 invariant quoteChar == qst2(argsStr, i)
+  loop 1 invariant parenDepth == pdepth(argsStr, i)
+  loop 1 decreases len(argsStr) - i
 
 func (*Stream).processExpressionField
   props C05 C20 C06 C04 C07 C16
@@ -464,6 +480,8 @@ func (*DataProcessor).processWindowBatch
   modifies *
   count adds := Add
   count resets := Reset
+  count puts := Put
+  before Add each-row-is-aggregated-under-its-own-window-bounds-published-just-before: $puts == 2 * ($adds + 1)
   observe res := GetResults
   observe resErr := GetResults#1
   ensures [C01 C08 C03 C09] every-aggregated-batch-ends-with-one-reset-whatever-was-delivered: old(dp.stream.config.WindowConfig.Type) != "global" && $resErr == nil ==> $resets == 1
@@ -471,7 +489,7 @@ func (*DataProcessor).processWindowBatch
   before stampWindowID results-of-this-batch-get-this-batchs-interval: $arg0 == $res && $arg1 == batch && $adds == len(batch)
   before Reset accumulators-restart-only-after-the-results-were-taken: $adds == len(batch)
   loop 1 invariant true
-  loop 2 invariant $adds == $i && $s == batch
+  loop 2 invariant $adds == $i && $s == batch && $puts == 2 * $i
 @*/
 
 /*@
